@@ -70,7 +70,11 @@ def run_one(m, props, run_tests):
                 first = [l for l in r.stdout.splitlines() if l.startswith(("VIOLATION rule", "UNDECIDED"))][:2]
                 alarms.append(prop + ": " + " | ".join(x[:260] for x in first))
         if alarms:
+            if m.get("open"):
+                return (m["id"], "OPEN", "known false alarm, documented: " + alarms[0][:160])
             return (m["id"], "ALARM", "\n      ".join(alarms))
+        if m.get("open"):
+            return (m["id"], "CLOSED", "no longer alarms: remove its 'open' note")
         return (m["id"], "SILENT", "")
     finally:
         shutil.rmtree(tmp, ignore_errors=True)
@@ -86,6 +90,7 @@ def main():
         outd = os.path.join(ROOT, "mutants", "benign"); os.makedirs(outd, exist_ok=True)
         for f in os.listdir(outd): os.remove(os.path.join(outd, f))
         for m in json.load(open(os.path.join(ROOT, "mutants", "benign.json"))):
+            if m.get("open"): continue  # a documented false alarm is not replayed by the thorough tier
             tmp = tempfile.mkdtemp(prefix="wpb-exp-")
             try:
                 os.makedirs(os.path.join(tmp, "a")); os.makedirs(os.path.join(tmp, "b"))
@@ -116,7 +121,7 @@ def main():
     with cf.ThreadPoolExecutor(max_workers=a.j) as ex:
         for mid, status, detail in ex.map(lambda m: run_one(m, props, not a.no_tests), ms):
             print("%-30s %-8s %s" % (mid, status, detail))
-            if status != "SILENT": bad += 1
+            if status not in ("SILENT", "OPEN"): bad += 1
     print("%d benign edits, %d not silent" % (len(ms), bad))
     sys.exit(1 if bad else 0)
 main()
